@@ -1022,3 +1022,11 @@ Proof.
              (fun x => dpda_checks_ok_iff (fst x) (snd x)) (fun x => dpda_bad_broken (fst x) (snd x))
              (fun x => wf_dpda_sound (fst x) (snd x)) (m, mode) k).
 Qed.
+
+Theorem mntm_single_rule_kind n m k : mntm_broken n m k -> (forall k', mntm_broken n m k' -> k' = k) ->
+  mntm_validate n m = Err (Invalid k).
+Proof.
+  intros Hb Huniq. destruct (mntm_broken_rejected n m k Hb) as [k' E].
+  destruct (mntm_validate_err_sound n m _ E) as [k'' [Ek Hb'']]. inversion Ek; subst k''.
+  rewrite (Huniq k' Hb'') in E. exact E.
+Qed.
